@@ -681,3 +681,88 @@ def size_limit_witness(c, entity):
     if entity == "vtb":
         return e.vtb(vtb)
     return e.popdata(Rec((1, [], [vtb], [])))
+
+
+# --------------------------------------------------------------------------
+# memoised hashes / ids: API sequences  hash ; mutate one field ; hash   (harness op `memo`)
+# --------------------------------------------------------------------------
+MEMO_SETTERS = {"vbkblock": 9, "btcblock": 6, "atv": 11, "vtb": 16}
+
+
+def memo_cases(r, quick=True):
+    g = Gen(r)
+    out = []
+    k = 0
+    for t, n in MEMO_SETTERS.items():
+        mk = {"vbkblock": lambda: g.vbkblock(low=True), "btcblock": g.btcblock, "atv": g.atv, "vtb": g.vtb}[t]
+        for s in range(n):                       # every setter on its own: hash, set, hash
+            out.append(("m%d" % k, "memo", [t, show(mk()), "h,%d,h" % s]))
+            k += 1
+        for _ in range(4 if quick else 60):      # random interleavings, always ending with a read
+            seq = ["h"] if r.chance(3, 4) else []
+            for _ in range(r.range(1, 5)):
+                seq.append(str(r.below(n)))
+                if r.chance(1, 2):
+                    seq.append("h")
+            if seq[-1] != "h":
+                seq.append("h")
+            out.append(("m%d" % k, "memo", [t, show(mk()), ",".join(seq)]))
+            k += 1
+    return out
+
+
+# --------------------------------------------------------------------------
+# hostile split descriptors inside VbkPopTx.bitcoinTransaction.tx (containsSplit)
+# --------------------------------------------------------------------------
+def hostile_split_txs(r, count):
+    """bitcoin transactions carrying the split magic 92 7a 59 with every descriptor shape (0..15 chunks, offset widths
+    4/8/12/16, length widths 4..7) and chunk tables whose offsets/lengths sit at, just below and beyond the bytes that
+    remain after the previous chunk; also truncated tables, several magics, magic close to the end"""
+    from props import _c05gen as G
+    out = []
+    while len(out) < count:
+        n = r.choice([0, 1, 2, 2, 2, 3, 3, 4, 8, 15]) if r.chance(2, 3) else r.below(16)
+        o = r.choice([4, 8, 12, 16])
+        sw = r.range(4, 7)
+        bitlen = max(0, n * o + (n - 1) * sw) if n else 0
+        nbytes = bitlen // 8 + 1
+        lead = r.choice([0, 0, 1, 3, r.below(20)])
+        tail = r.choice([0, 1, 2, 5, 6, 7, 12, 40, 79, 80, 81, 100, r.below(200)])
+        size = lead + 3 + 1 + nbytes + tail
+        pos = 0
+        left = 80
+        chunks = []
+        for k in range(n):
+            rem = size - pos
+            cands = [0, 1, rem - 1, rem, rem + 1, size, size - 1, size + 1, rem // 2, (1 << o) - 1, r.below(max(1, rem + 3))]
+            off = max(0, min((1 << o) - 1, r.choice(cands)))
+            after = size - (pos + off)
+            lc = [0, 1, after - 1, after, after + 1, left, left - 1, left + 1, (1 << sw) - 1, r.below(1 << sw)]
+            ln = max(0, min((1 << sw) - 1, r.choice(lc)))
+            chunks.append((off, ln))
+            last = (k == n - 1)
+            used = (left if last else ln)
+            pos = pos + off + max(0, used)
+            left -= ln
+        if n:
+            tab = G.encode_table(chunks, o, sw)
+        else:
+            tab = bytes([G.descriptor(0, o, sw)]) + r.bytes(1)
+        tx = G.filler(r, lead) + G.MAGIC + tab + r.bytes(tail)
+        m = r.below(8)
+        if m == 0 and len(tx) > 4:
+            tx = tx[:r.range(3, len(tx) - 1)]                  # truncated descriptor / table
+        elif m == 1:
+            tx = tx + G.MAGIC + tab + r.bytes(r.below(12))     # a second magic
+        elif m == 2:
+            tx = r.bytes(r.below(6)) + G.MAGIC[:r.range(1, 2)] + tx   # partial magic first
+        out.append(tx)
+    return out
+
+
+def vtb_with_btctx(g, c, tx):
+    """an otherwise valid VTB (regtest magic byte, empty BTC context) around the given bitcoin transaction bytes"""
+    r = g.r
+    pop = Rec((Rec((0xbb, c["TX_TYPE_VBK_POP_TX"])), g.address(), g.vbkblock(), tx, g.merklepath(), g.btcblock(),
+               [g.btcblock() for _ in range(r.below(2))], r.bytes(r.below(73)), r.bytes(r.below(89))))
+    return Rec((1, pop, g.vbkmerklepath(), g.vbkblock(low=True)))
